@@ -4,6 +4,7 @@
 -/
 import RSVerif.Proofs.Access
 import RSVerif.Proofs.InvPres
+import RSVerif.Proofs.SrcWorkSpec
 
 namespace RS
 
@@ -59,5 +60,24 @@ theorem consecutive_rounds (ls : List (List (Array Nat))) (e e' : Encoder)
 example : ∃ w : EncWork, w.r = 3 ∧ (w.recovery 2).isSome = true ∧ (w.recovery 3).isSome = false ∧
     (w.recovery 18446744073709551615).isSome = false :=
   ⟨{ k := 2, r := 3, sb := 2, L := 1, mem := #[#v[1#16], #v[2#16], #v[3#16]] }, rfl, rfl, rfl, rfl⟩
+
+/-! ### the same, about the SOURCE as translated today (Gen/SrcWork.lean, regenerated on every run) -/
+
+open RS.RustW RS.SrcW in
+/-- the translated accessors: `Some` exactly for the documented indexes, and they change nothing -/
+theorem source_accessors {σ : Type} (ops : ShardsOps σ) (i : Nat) :
+    (∀ st : EncoderWorkS σ, EncoderWork_recovery ops st i =
+      if i < st.recovery_count then (ops.slice st.shards i st.shard_bytes).map (fun v => (some v, st))
+      else some (none, st)) ∧
+    (∀ st : DecoderWorkS σ, st.original_base_pos + i < 18446744073709551616 →
+      DecoderWork_restored_original ops st i =
+        if i < st.original_count ∧ BitSet.get st.received (st.original_base_pos + i) = false then
+          (ops.slice st.shards (st.original_base_pos + i) st.shard_bytes).map (fun v => (some v, st))
+        else some (none, st)) ∧
+    (∀ st : DecoderWorkS σ, DecoderWork_reset_received ops st = some ((),
+      { st with original_received_count := 0, recovery_received_count := 0,
+                received := Array.replicate st.received.size false })) :=
+  ⟨fun st => srcE_recovery_spec ops st i, fun st hb => srcD_restored_spec ops st i hb,
+   fun st => srcD_reset_received_spec ops st⟩
 
 end RS
